@@ -35,15 +35,6 @@ impl MemoryFS {
         }
     }
 
-    fn ensure_has_parent(&self, path: &str) -> VfsResult<()> {
-        let separator = path.rfind('/');
-        if let Some(index) = separator {
-            if self.exists(&path[..index])? {
-                return Ok(());
-            }
-        }
-        Err(VfsErrorKind::Other("Parent path does not exist".into()).into())
-    }
 }
 
 impl Default for MemoryFS {
@@ -188,8 +179,8 @@ impl FileSystem for MemoryFS {
     }
 
     fn create_dir(&self, path: &str) -> VfsResult<()> {
-        self.ensure_has_parent(path)?;
         let map = &mut self.handle.write().unwrap().files;
+        ensure_has_parent(map, path)?;
         let entry = map.entry(path.to_string());
         match entry {
             Entry::Occupied(file) => {
@@ -227,10 +218,10 @@ impl FileSystem for MemoryFS {
     }
 
     fn create_file(&self, path: &str) -> VfsResult<Box<dyn SeekAndWrite + Send>> {
-        self.ensure_has_parent(path)?;
         let content = Arc::new(Vec::<u8>::new());
         {
             let mut handle = self.handle.write().unwrap();
+            ensure_has_parent(&handle.files, path)?;
             if let Some(existing) = handle.files.get(path) {
                 ensure_file(existing)?;
             }
@@ -323,14 +314,14 @@ impl FileSystem for MemoryFS {
     }
 
     fn remove_dir(&self, path: &str) -> VfsResult<()> {
-        if self.read_dir(path)?.next().is_some() {
+        let mut handle = self.handle.write().unwrap();
+        let file = handle.files.get(path).ok_or(VfsErrorKind::FileNotFound)?;
+        ensure_dir(file)?;
+        let prefix = format!("{}/", path);
+        if handle.files.keys().any(|key| key.starts_with(&prefix)) {
             return Err(VfsErrorKind::Other("Directory to remove is not empty".into()).into());
         }
-        let mut handle = self.handle.write().unwrap();
-        handle
-            .files
-            .remove(path)
-            .ok_or(VfsErrorKind::FileNotFound)?;
+        handle.files.remove(path);
         Ok(())
     }
 }
@@ -365,6 +356,17 @@ struct MemoryFile {
     created: SystemTime,
     modified: Option<SystemTime>,
     accessed: Option<SystemTime>,
+}
+
+/// Checks that the parent of `path` exists; called with the lock held so that the check and the
+/// insertion that follows it are one atomic step
+fn ensure_has_parent(files: &HashMap<String, MemoryFile>, path: &str) -> VfsResult<()> {
+    if let Some(index) = path.rfind('/') {
+        if files.contains_key(&path[..index]) {
+            return Ok(());
+        }
+    }
+    Err(VfsErrorKind::Other("Parent path does not exist".into()).into())
 }
 
 fn ensure_dir(file: &MemoryFile) -> VfsResult<()> {
